@@ -38,7 +38,7 @@ SC_OPS = {"add_node", "add_nodes_from", "remove_node", "remove_nodes_from", "set
 def cases(draw, tier):
     cls = draw(st.sampled_from(["H", "H", "DH", "SC"]))
     kind = draw(nets.kinds)
-    spec = draw(nets.net_spec(cls=cls, kind=kind, max_edges=5, allow_empty=(cls != "SC"), nested=True, tuples=True, float_ids=True))
+    spec = draw(nets.net_spec(cls=cls, kind=kind, max_edges=5, allow_empty=(cls != "SC"), nested=True, tuples=True, float_ids=True, big_ids=True))
     n = 8 if tier == "quick" else 16
     if cls == "H":
         op = hops.op_strategy(kind, none_p=True, bulk_empty=False, heavy=False, only=H_OPS)
